@@ -16,6 +16,17 @@ CHECKS = {
          "nothing is executed.",
     note="Trusted: rustc MIR, fact dumper, explorer. The overflow predicate itself (max_value(len) < child.pos - parent.pos) is taken as the definition of 'fits'.",
  ),
+ "C06": dict(
+    technique="dominating-guard analysis (loop aware), ADT field-type query, sort-key closure inspection",
+    design_ref="DESIGN.md §4 C06",
+    text="Decides: copy_missing_tables inserts only under the not-present edge of tables.contains_key(tag) for the same tag (a "
+         "supplied table is never overridden, whatever its length); FontBuilder.tables is BTreeMap<Tag,_>, directory records are "
+         "sorted by record.tag before TableDirectory::from_table_records and nothing is pushed afterwards; ordered_tags' sort "
+         "key ends in the tag itself (total order => result independent of insertion order); every constant-range slice of table "
+         "bytes in build() is dominated by a covering length test (head shorter than 12 bytes cannot panic). Padding, checksum and "
+         "0xB1B0AFBA arithmetic and directory offsets are value level and not decided.",
+    note="Trusted: rustc MIR, fact dumper. The reader side (FontRef::table_data binary search) is covered by C01's core-zone rules only.",
+ ),
  "C07": dict(
     technique="effect/purity analysis over MIR: statics census, who-may-read a field, iterator-sink classification for hash-ordered containers, inter-procedural pointer-cast value flow",
     design_ref="DESIGN.md §4 C07",
